@@ -126,3 +126,18 @@ CLAIMED["C17"] = ("proof",
     "Trusted: Coq kernel + stdlib real axioms; Agg.v; LAPACK pinv/eigh (exact rational pinv in the harness for "
     "IMTL-G's model, float64 numpy for ConFIG/Aligned-MTL).",
     "Coq proof (IMTL-G, zero) + differential oracle")
+CLAIMED["C19"] = ("proof",
+    "Coq theorems (props/C19.v; the state-machine ones are axiom-free and hold for every number type): for ALL "
+    "histories h and suffixes t, every k, every solver (an arbitrary function of the problem object, the "
+    "normalised Gramian and the previous weights -- warm starts included), the outputs on t after (h; reset) are "
+    "those of a newly constructed aggregator (simulation: equal step and prvs_alpha, equal problem object unless "
+    "step = 0, where it is rebuilt before use); the per-call trace equals the position-based schedule (solver "
+    "invoked iff (calls since reset) mod k = 0, previous weights reused unchanged otherwise); |A(J)| <= max_norm "
+    "whenever max_norm > 0 (over R); the pre-fix reuse branch returns TypeError (regression witness D2). "
+    "Correspondence: exhaustive histories over {3 matrices of different scales, reset} up to length 3/4 and random "
+    "longer ones, k 1..4, n_tasks 2..5, max_norm in {1,0.5,0.1,0}; solver invocations counted by wrapping the "
+    "public cvxpy.Problem.solve; raw weights from a max_norm=0 twin feed the model's solver oracle.",
+    "DESIGN.md §8 C19",
+    "Trusted: Coq kernel (+ stdlib real axioms for the norm bound only); Nash.v (tied by correspondence); ECOS/cvxpy "
+    "determinism; that _init_optim_problem rebuilds the problem from prvs_alpha alone.",
+    "Coq proof (all histories) + exhaustive small-scope history correspondence")
